@@ -45,9 +45,15 @@ func (r *Run) profileFinal() {
 	case "snap":
 		r.snapFinal()
 		if len(r.viols) == 0 {
+			r.checkHistory()
+		}
+		if len(r.viols) == 0 {
 			r.integritySoundness()
 		}
 	case "conc":
-		r.integritySoundness()
+		r.checkHistory()
+		if len(r.viols) == 0 {
+			r.integritySoundness()
+		}
 	}
 }
